@@ -815,6 +815,11 @@ class SdcConsumer:
             # find better solution, see issue #320
             self._logger.info('Http server started. Serving EventSink on {}', self._http_server.base_url)  # noqa: PLE1205
         else:
+            if self.is_ssl_connection and urlparse(shared_http_server.base_url).scheme != 'https':
+                # NotifyTo / EndTo addresses take over the scheme of the shared server: never advertise plaintext
+                # addresses when the connection to the provider is encrypted.
+                msg = f'shared http server {shared_http_server.base_url} is not an https server'
+                raise ApiUsageError(msg)
             self._http_server = shared_http_server
         # register own epr in http server
         self._http_server.dispatcher.register_instance(self.path_prefix, self._msg_converter)
